@@ -11,7 +11,7 @@
 enum { EV_TFD_CREATE = 1, EV_TFD_SETTIME, EV_EPOLL_CTL, EV_RC, EV_VIOL, EV_FIRE, EV_STEP, EV_NOTE, EV_TIMEOUT };
 enum { V_FIRE_UNREGISTERED = 1, V_FIRE_DISABLED, V_FIRE_ONESHOT_TWICE, V_FIRE_DISPATCH_NOT_REENABLED, V_FIRE_NO_CONDITION,
        V_WRONG_EVENT_KIND, V_EOF_FLAG_MISSING, V_EOF_FLAG_SPURIOUS, V_MISSING_FIRE, V_WRONG_THREAD, V_OP_FAILED, V_ERROR_FLAG_SPURIOUS,
-       V_PROC_FLAGS, V_FD_LEAK };
+       V_PROC_FLAGS, V_FD_LEAK, V_ERROR_FLAG_MISSING, V_ERROR_CODE };
 
 int __real_timerfd_create(int clockid, int flags);
 int __real_timerfd_settime(int fd, int flags, const struct itimerspec *n, struct itimerspec *o);
@@ -51,7 +51,7 @@ typedef struct {
 	int kind, fdr, fdw;     /* pipe (read end registered) or socketpair */
 	int registered, enabled, flags /* TP_F_ONESHOT / DISPATCH */, fired_since_enable;
 	long pending;           /* bytes in the pipe not yet consumed */
-	int peer_closed, is_sock;
+	int peer_closed, is_sock, peer_reset, poisoned;
 	unsigned long fired, expected_min;
 	pid_t child;
 	unsigned timer_ms;
@@ -92,7 +92,11 @@ static void ev_cb(tp_event_p ev, tp_udata_p u) {
 		if (d->pending <= 0 && !d->peer_closed) viol(V_FIRE_NO_CONDITION, id, 0);
 		if (d->peer_closed && !(ev->flags & TP_F_EOF)) viol(V_EOF_FLAG_MISSING, id, ev->flags);
 		if (!d->peer_closed && (ev->flags & TP_F_EOF)) viol(V_EOF_FLAG_SPURIOUS, id, ev->flags);
-		if ((ev->flags & TP_F_ERROR)) viol(V_ERROR_FLAG_SPURIOUS, id, ev->fflags);
+		if (d->peer_reset) { /* peer closed with our data unread: the kernel reports hang-up AND error (ECONNRESET) together */
+			if (!(ev->flags & TP_F_ERROR)) viol(V_ERROR_FLAG_MISSING, id, ev->flags);
+			else if (ev->fflags != ECONNRESET && ev->fflags != EPIPE) viol(V_ERROR_CODE, id, ev->fflags);
+			d->peer_reset = 0; /* SO_ERROR is consumed by the first report */
+		} else if ((ev->flags & TP_F_ERROR)) viol(V_ERROR_FLAG_SPURIOUS, id, ev->fflags);
 		if (d->pending > 0) { char c; if (1 == read(d->fdr, &c, 1)) d->pending--; }
 		else if (d->peer_closed) { /* EOF keeps firing on a persistent event: stop it ourselves */
 			if (!(d->flags & (TP_F_ONESHOT | TP_F_DISPATCH))) { tpt_ev_enable_args1(0, TP_EV_READ, &d->u); d->enabled = 0; }
@@ -118,7 +122,7 @@ static void ev_cb(tp_event_p ev, tp_udata_p u) {
 	if (d->flags & TP_F_DISPATCH) d->enabled = 0;
 }
 
-enum { H_ADD = 1, H_ENABLE, H_DISABLE, H_DELETE, H_READY, H_CLOSE_PEER, H_SPIN, H_CHECK };
+enum { H_ADD = 1, H_ENABLE, H_DISABLE, H_DELETE, H_READY, H_CLOSE_PEER, H_SPIN, H_CHECK, H_ENABLE_NEWFLAGS, H_POISON };
 typedef struct { uint8_t op, id, kind, flags; uint32_t arg; } hstep_t;
 static hstep_t *g_prog; static unsigned g_nprog, g_pc; static int g_external;
 static unsigned g_spin_left; static uint64_t g_check_deadline;
@@ -126,7 +130,7 @@ static unsigned g_spin_left; static uint64_t g_check_deadline;
 static void open_ident(ident_t *d, int kind, int is_sock) {
 	int fd[2] = {-1, -1};
 	if (d->fdr > 0) { close(d->fdr); if (d->fdw > 0 && d->fdw != d->fdr) close(d->fdw); }
-	d->fdr = d->fdw = -1; d->pending = 0; d->peer_closed = 0; d->is_sock = is_sock;
+	d->fdr = d->fdw = -1; d->pending = 0; d->peer_closed = 0; d->is_sock = is_sock; d->peer_reset = 0; d->poisoned = 0;
 	if (kind == K_READ || kind == K_WRITE) {
 		if (is_sock) socketpair(AF_UNIX, SOCK_STREAM | SOCK_NONBLOCK, 0, fd); else pipe2(fd, O_NONBLOCK);
 		if (kind == K_READ) { d->fdr = fd[0]; d->fdw = fd[1]; }
@@ -174,6 +178,16 @@ static void do_op(hstep_t *s) {
 		rc = tpt_ev_enable(1, &e, &d->u);
 		if (rc) viol(V_OP_FAILED, s->id, rc); else { d->enabled = 1; d->fired_since_enable = 0; }
 		break;
+	case H_ENABLE_NEWFLAGS: /* enable with other flags than the registration had: the new flags must govern from now on */
+		if (!d->registered || (d->kind != K_READ && d->kind != K_WRITE)) break;
+		e.event = (uint16_t)d->kind; e.flags = (uint16_t)(s->flags & 3); if (e.flags == 3) e.flags = 0; e.fflags = 0; e.data = 0;
+		rc = tpt_ev_enable(1, &e, &d->u);
+		if (rc) viol(V_OP_FAILED, s->id, rc); else { d->enabled = 1; d->fired_since_enable = 0; d->flags = e.flags; }
+		break;
+	case H_POISON: /* leave unread data in the peer's receive queue: closing the peer then resets the connection */
+		if (d->kind != K_READ || !d->is_sock || d->fdw < 0 || d->peer_closed || d->poisoned) break;
+		if (4 == write(d->fdr, "zzzz", 4)) d->poisoned = 1;
+		break;
 	case H_DISABLE:
 		if (!d->registered || d->kind == K_PROC) break;
 		e.event = (uint16_t)d->kind; e.flags = (uint16_t)d->flags; e.fflags = d->kind == K_TIMER ? TP_FF_T_MSEC : 0; e.data = d->kind == K_TIMER ? d->timer_ms : 0;
@@ -195,6 +209,7 @@ static void do_op(hstep_t *s) {
 		if ((d->kind != K_READ && d->kind != K_WRITE) || d->fdw < 0 || d->peer_closed) break;
 		if (d->kind == K_READ && d->is_sock && (s->arg & 1)) { shutdown(d->fdw, SHUT_WR); d->peer_closed = 1; break; } /* half close: RDHUP only */
 		close(d->fdw); d->fdw = -1; d->peer_closed = 1;
+		if (d->poisoned) d->peer_reset = 1;
 		break;
 	default: break;
 	}
